@@ -144,6 +144,25 @@ pub fn run(ctx: &Ctx) -> CheckResult {
             }
         }
         res.extra.insert("deviation_family_runs".into(), json!(fams.len()));
+        // medium periods on tick-grid walks (ties, plateaus, double tops at every phase of the ring)
+        {
+            let ns: Vec<usize> = (6..=40usize).filter(|n| th || n % 3 == 0 || *n == 7 || *n == 10 || *n == 14 || *n == 20).collect();
+            let tl = if th { 6000 } else { 1200 };
+            let mut cb = vec![];
+            let mut cs = vec![];
+            for &n in &ns {
+                cb.push(Cfg::p1(Kind::FastStoch, n));
+                cb.push(Cfg::p2(Kind::SlowStoch, n, 3));
+                cb.push(Cfg::p1(Kind::Cci, n));
+                cb.push(Cfg::p1(Kind::Mfi, n));
+                for k in [Kind::Rsi, Kind::FastStoch, Kind::Roc, Kind::Er] {
+                    cs.push(Cfg::p1(k, n));
+                }
+                cs.push(Cfg::p3(Kind::Ppo, n, 2 * n + 1, 9));
+            }
+            fams.extend(tick_walk_families(&cb, tl, ctx.seed, true, true));
+            fams.extend(tick_walk_families(&cs, tl, ctx.seed, false, true));
+        }
         let chunks: Vec<&[Family]> = fams.chunks(32).collect();
         let outs = par_run(ctx, &chunks, |_, chunk| {
             let mut out = JobOut::default();
